@@ -14,15 +14,15 @@ from vlib.harness import Acc
 LEVEL = "fault_enumeration"
 RULE = ("case = (transport in {RTU/UDP, AA55/UDP, Modbus/TCP}, keep-alive, timeout, retries, per-transmission fault "
         "script, TCP connect outcomes, connect latency); exhaustive over all scripts of length retries+1 <= 3 from a "
-        "13-action palette (and connect-outcome scripts x a 5-action palette on TCP), Hypothesis-sampled for retries "
+        "14-action palette (13 of the property + exact tie) (and connect-outcome scripts x a 5-action palette on TCP), Hypothesis-sampled for retries "
         "<= 6 with free delays on a T/16 grid. Non-trivial = script contains at least one action other than a valid "
         "answer in time (or a non-ok connect outcome); distinct by (configuration, script).")
 ASSUMPTIONS = [
     "vlib/vloop.py models the asyncio transport/protocol callback contract of CPython 3.12 selector_events.py, not "
     "the kernel: real sockets, DNS and ICMP timing are out of scope",
     "a send that fails with an OS error counts as a transmission attempt",
-    "delays are multiples of timeout/16 and never exactly equal to the timeout (ties between the timeout timer and "
-    "a delivery are not generated)",
+    "delays are multiples of timeout/16; deliveries exactly at a timeout (ties with the timer) ARE generated: either order is "
+    "accepted, the bounds on transmissions / completion time must hold regardless (a real defect was found this way)",
 ]
 EXHAUSTIVE = None
 
@@ -31,10 +31,10 @@ OK_OUTCOMES = ("ok", "RequestRejectedException", "RequestFailedException", "MaxR
 
 
 def palette(transport):
-    """13 actions of the property's alphabet with fixed delays (ticks of T/16)."""
+    """The 13 actions of the property's alphabet with fixed delays (ticks of T/16) + an answer exactly at the timeout (tie)."""
     closes = ["eof", 4] if transport == "tcp" else ["recverr", 4, "ECONNREFUSED"]
     return [
-        ["drop"], ["answer", 0], ["answer", 8], ["answer", 24], ["garbage", 4], ["short", 4], ["bad", 4],
+        ["drop"], ["answer", 0], ["answer", 8], ["answer", 24], ["answer", 16], ["garbage", 4], ["short", 4], ["bad", 4],
         ["exc", 4, 2], ["frag", 9, 4, 8], ["lone", 9, 4], ["dup", 4, 8], closes, ["senderr", "ECONNREFUSED"],
     ]
 
@@ -139,7 +139,7 @@ def hyp_job(job):
     acc = Acc()
     tick_in = st.integers(0, 15)
     tick_late = st.integers(17, 40)
-    tick_any = st.one_of(tick_in, tick_late)
+    tick_any = st.one_of(tick_in, tick_late, st.sampled_from((16, 32)))  # incl. exact ties with a timeout timer
     errn = st.sampled_from(("ECONNREFUSED", "ECONNREFUSED", "ENETUNREACH", "EHOSTUNREACH"))
     cut = st.integers(1, 30)
 
@@ -191,8 +191,8 @@ def run(ctx):
         for transport in ("udp", "tcp"):
             jobs.append((transport, True, 1.0, 3, "scripts"))  # depth 4: 28,561 scripts each
     jobs.sort(key=lambda j: -j[3])
-    ctx.shard(enum_job, jobs, "exhaustive fault scripts to depth retries+1 (13-action palette; TCP connect outcomes x 5 actions)")
-    ctx.exhaustive_parts.append("all 13^(R+1) scripts for R in 0..2 per transport/keep-alive; all non-ok TCP connect "
+    ctx.shard(enum_job, jobs, "exhaustive fault scripts to depth retries+1 (14-action palette (13 of the property + exact tie); TCP connect outcomes x 5 actions)")
+    ctx.exhaustive_parts.append("all 14^(R+1) scripts for R in 0..2 per transport/keep-alive; all non-ok TCP connect "
                                 "scripts of length R+1 x 5^(R+1) action scripts" + ("" if ctx.quick else "; depth 4 on UDP/TCP keep-alive"))
     n = ctx.pick(4000, 60000)
     ctx.shard(hyp_job, [(ctx.seed * 1000 + i, n // 16) for i in range(16)], "hypothesis random scripts (retries <= 6, free delays)")
